@@ -41,7 +41,7 @@ class Frame(object):
         return "<Frame %s len=%d>" % (TYPE_NAMES.get(self.type, self.type), self.length)
 
 
-def deframe(stream):
+def deframe(stream, early_type=True):
     """RFC 4271 4.1 / 6.1 deframer.  Returns (frames, rest).  Stops at the first header
     violation, which is returned as a Frame with .error set (it is the last frame).
     The header is judged as soon as its 19 octets are there (marker, then length, then type),
@@ -58,8 +58,9 @@ def deframe(stream):
         if length < 19 or length > 4096:
             frames.append(Frame(mtype, length, b"", stream[off:], ("length", 2), off))
             return frames, b""
-        if mtype not in KNOWN_TYPES:
-            # bad type is detectable from the header alone
+        if mtype not in KNOWN_TYPES and (early_type or n - off >= length):
+            # bad type is detectable from the header alone (early_type) -- a receiver may equally
+            # well wait for the whole frame before it looks at the type
             frames.append(Frame(mtype, length, b"", stream[off:], ("type", 3), off))
             return frames, b""
         if n - off < length:
@@ -425,3 +426,39 @@ def describe(raw):
     if rest:
         out.append("+%dB" % len(rest))
     return out
+
+
+# --------------------------------------------------------------------------- multiprotocol helpers (RFC 4760 / 4364 / 5575)
+
+def flowspec_nlri(dst=None, src=None, proto=None):
+    comp = b""
+    if dst is not None:
+        comp += b"\x01" + encode_prefix(dst)
+    if src is not None:
+        comp += b"\x02" + encode_prefix(src)
+    if proto is not None:
+        comp += b"\x03" + bytes([0x81, proto])
+    assert len(comp) < 240
+    return bytes([len(comp)]) + comp
+
+
+def vpnv4_nlri(label, rd_asn, rd_num, pfx, withdraw=False):
+    ip, plen = pfx.split("/")
+    plen = int(plen)
+    lab = (0x800000 if withdraw else ((label << 4) | 1)).to_bytes(3, "big")
+    rd = struct.pack("!HHI", 0, rd_asn, rd_num)
+    nbytes = (plen + 7) // 8
+    return bytes([24 + 64 + plen]) + lab + rd + socket.inet_aton(ip)[:nbytes]
+
+
+def mp_reach(afi, safi, nexthop, nlri):
+    return attr_tlv(0x80, 14, struct.pack("!HBB", afi, safi, len(nexthop)) + nexthop + b"\x00" + nlri)
+
+
+def mp_unreach(afi, safi, nlri):
+    return attr_tlv(0x80, 15, struct.pack("!HB", afi, safi) + nlri)
+
+
+def ext_communities(items):
+    """items: list of 8-byte values"""
+    return attr_tlv(0xC0, 16, b"".join(items))
